@@ -2,7 +2,8 @@
 From C06 Require Import Model Spec Proofs ProofsRef ProofsMap.
 
 (* (1) A function that is not destructive (list, cons, list*, cdr, nthcdr, member, last, butlast, subseq, copy-list,
-   reverse, append, add, push, pop, remove/delete, remove-if/delete-if with :count and :from-end, mapcar, nconc as repaired) never changes any list other than
+   reverse, append, add, push, pop, remove/delete, remove-if/delete-if with :count and :from-end,
+   remove-duplicates/delete-duplicates with :from-end, :start and :end, mapcar, nconc as repaired) never changes any list other than
    the variable it is stored into: every state, every operation of the class, no guard (w only has to be a
    well-formed variable). *)
 Theorem C06_nondestructive_frame : forall st o cap w,
@@ -175,3 +176,27 @@ Theorem C06_remove_if_frame : forall st p n fe src dst cap w,
   w <> dst -> wf_var st w -> vcontents (step st (ORemoveIf p n fe src dst) cap) w = vcontents st w.
 Proof. intros st p n fe src dst cap w. exact (nondestructive_frame st (ORemoveIf p n fe src dst) cap w eq_refl). Qed.
 Print Assumptions C06_remove_if_frame.
+
+(* (11) remove-duplicates / delete-duplicates (one Go function: RemoveDuplicates embeds DeleteDuplicates) with
+   :from-end, :start, :end belong to the non-destructive class of (1), to the fresh-result class of (5) and to the
+   operations of the invariant (3) and of the refinement (6): in both scan directions the argument's array is only
+   read and the result lies alone on a new array.  Their value: for every direction and every window exactly the
+   elements of the argument occur in the result; over the whole list no element occurs twice; which occurrence
+   stays is shown on examples (first with :from-end t, last otherwise; outside the window everything stays). *)
+Theorem C06_remove_dup_frame : forall st fe s e src dst cap w,
+  w <> dst -> wf_var st w -> vcontents (step st (ORemoveDup fe s e src dst) cap) w = vcontents st w.
+Proof. intros st fe s e src dst cap w. exact (nondestructive_frame st (ORemoveDup fe s e src dst) cap w eq_refl). Qed.
+Print Assumptions C06_remove_dup_frame.
+Theorem C06_remove_dup_same_elements : forall fe s e l x, In x (remove_dup fe s e l) <-> In x l.
+Proof. exact remove_dup_same_elements. Qed.
+Print Assumptions C06_remove_dup_same_elements.
+Theorem C06_remove_dup_nodup : forall fe l, NoDup (remove_dup fe 0 None l).
+Proof. exact remove_dup_nodup. Qed.
+Print Assumptions C06_remove_dup_nodup.
+Theorem C06_remove_dup_examples :
+  remove_dup true 0 None [1; 2; 1; 3; 2; 4]%Z = [1; 2; 3; 4]%Z /\
+  remove_dup false 0 None [1; 2; 1; 3; 2; 4]%Z = [1; 3; 2; 4]%Z /\
+  remove_dup true 1 None [1; 2; 1; 2; 1]%Z = [1; 2; 1]%Z /\
+  remove_dup false 0 (Some 3) [1; 2; 1; 2; 1]%Z = [2; 1; 2; 1]%Z.
+Proof. exact remove_dup_examples. Qed.
+Print Assumptions C06_remove_dup_examples.
